@@ -54,11 +54,12 @@ CHECKS = {
                        "actually derive from, per instance), that every producer instance has finished, that split < chunks < join inside a fork, and that preflights "
                        "of enclosing pipelines are done; schedules are generated (which pending job finishes, how many scheduler steps / journal scans in between). Exploration."),
         "level_note": "In E1 'start' is the hand-over to the job manager; real process start times are covered by the E2 sample.",
-        "rule": _SEM_RULE + "Non-trivial (C02): at some point >= 2 jobs were pending and a job other than the oldest was finished first, or a dependency crosses a pipeline boundary, or forks are expanded at run time.",
+        "rule": _SEM_RULE + "Non-trivial (C02): at some point >= 2 jobs were pending and a job other than the oldest was finished first, or a dependency crosses a pipeline boundary, or forks are expanded at run time. Interrupted runs (TestInterruptOrder): the same invariants at every job start of runs in which the pipestance object is abandoned 1-3 times with jobs in flight (queued, alive, alive with outputs / stage defs written but no completion marker, finished unnoticed, dead after writing outputs) and re-attached; non-trivial: the interruption fell inside the run.",
         "assumptions": _SEM_ASSUME,
         "units": [U("props/run", "TestRunSemantics", (700, 14), (12000, 15), env={"VERIF_STATS_PROP": "C02"}),
+                  U("props/run", "TestInterruptOrder", (200, 6), (4000, 8)),
                   U("props/run", "TestE2Run", (60, 6), (1500, 8))],
-        "floors": {"quick": {"e2-run": 250, "dep-crosses-pipeline": 300, "dynamic-forks": 60, "preflight": 100}},
+        "floors": {"quick": {"e2-run": 250, "dep-crosses-pipeline": 300, "dynamic-forks": 60, "preflight": 100, "fate:alive-after-outs": 300}},
     },
     "C03": {
         "level": "exploration",
@@ -199,7 +200,7 @@ CHECKS = {
         "assumptions": _SEM_ASSUME + ["a job that is running records its pid in _jobinfo and the job manager removes _queued_locally when it starts the process, as the local job manager and mrjob do"],
         "units": [U("props/run", "TestInterrupt", (800, 10), (15000, 10)),
                   U("props/run", "TestE2Interrupt", (20, 6), (600, 8))],
-        "floors": {"quick": {"inside-run": 1500, "fate:queued": 300, "fate:dead-running": 300, "fate:dead-after-outs": 300, "fate:killed-with-error": 300, "fate:finished-unnoticed": 300, "fate:alive": 300, "fate:during-cleanup": 300, "fate:after-cleanup": 300, "e2": 80, "signal:TERM": 8, "signal:INT": 8, "signal:KILL": 8}},
+        "floors": {"quick": {"inside-run": 1500, "fate:queued": 300, "fate:dead-running": 300, "fate:dead-after-outs": 300, "fate:killed-with-error": 300, "fate:finished-unnoticed": 300, "fate:alive": 300, "fate:alive-after-outs": 300, "fate:during-cleanup": 300, "fate:after-cleanup": 300, "e2": 80, "signal:TERM": 8, "signal:INT": 8, "signal:KILL": 8}},
     },
     "C06": {
         "level": "exploration",
